@@ -20,7 +20,8 @@ MODULE = "LV.Notifier.Props"
 TARGETS = ["theories/Notifier/Props.vo", "theories/Notifier/Exec.vo",
            "theories/Notifier/Examples.vo", "theories/Notifier/GenBridge.vo",
            "theories/Notifier/MExec.vo"]
-WARM = [{"pkg": "chainntnfs", "files": ["chainntnfs/verif_txnotifier_test.go"]}]
+HARNESS = ["chainntnfs/verif_txnotifier_test.go", "chainntnfs/verif_catchup_test.go"]
+WARM = [{"pkg": "chainntnfs", "files": HARNESS}]
 IMPORTS = ("From Coq Require Import List NArith.\nImport ListNotations.\n"
            "From LV Require Import Notifier.Model Notifier.Exec.\n")
 
@@ -155,7 +156,8 @@ def project_spend(case, j):
 
 MIMPORTS = ("From Coq Require Import List NArith.\nImport ListNotations.\n"
             "From LV Require Import Notifier.Model Notifier.MModel Notifier.MExec.\n")
-MULTI_KINDS = ("multi", "mcoll")
+MULTI_KINDS = ("multi", "mcoll", "catchup")
+BLOCK_KINDS = ("catchup",)     # steps are BLOCKS of model calls (MExec.TMConfB / TMSpendB)
 
 
 def m_conf_events(ev, owner):
@@ -204,6 +206,7 @@ def project_multi(case, side):
     side is skipped unless a client of this side received something during it (then it is kept as
     a model no-op carrying those events, which the model will not reproduce)."""
     conf = side == "conf"
+    block = case["kind"] in BLOCK_KINDS
     owner = {}
     steps, idx = [], []
     ntx, nop = dims(case)
@@ -230,6 +233,8 @@ def project_multi(case, side):
                 t = "MCNotify"
             elif kind == "disc":
                 t = "MCDisconnect %s" % cN(max(op[1], 0))
+            elif kind == "rewind":
+                t = "; ".join("MCDisconnect %s" % cN(h) for h in op[1])
             evs = m_conf_events(ev, owner)
             res = c_res(ret)
             if t is None:
@@ -251,6 +256,8 @@ def project_multi(case, side):
                 t = "MSNotify"
             elif kind == "disc":
                 t = "MSDisconnect %s" % cN(max(op[1], 0))
+            elif kind == "rewind":
+                t = "; ".join("MSDisconnect %s" % cN(h) for h in op[1])
             evs = m_spend_events(ev, owner)
             res = c_res(ret)
             if t is None:
@@ -258,10 +265,11 @@ def project_multi(case, side):
                     continue
                 t, res = "MSCancel 999999 999999", "ROk None"
             hn = clist([c_optN(x) for x in o["sh"]])
-        steps.append("(%s, %s, %s, %s)" % (t, res, evs, hn))
+        steps.append("(%s, %s, %s, %s)" % ("[%s]" % t if block else t, res, evs, hn))
         idx.append(k)
     h0 = clist([c_optN(x) for x in (case["ch0"] if conf else case["sh0"])])
-    term = "%s %s %s %s %s" % ("TMConf" if conf else "TMSpend", cN(case["start"]),
+    term = "%s%s %s %s %s %s" % ("TMConf" if conf else "TMSpend", "B" if block else "",
+                                 cN(case["start"]),
                                cN(case["limit"]), h0, clist(steps))
     return term, idx
 
@@ -476,6 +484,16 @@ def predicate(case, stats=None, inherit=None, out=None):
                 if r.known == op[1]:
                     r.known = None
             chain.pop()
+        elif kind == "rewind" and ret == "ok":
+            # catch-up layer: the canonical disconnects down to the common ancestor, one call
+            for h in op[1]:
+                if h + limit <= high:
+                    for r in conf + spend:
+                        taint(r, "reorg beyond the safety limit")
+                for r in conf + spend:
+                    if r.known == h:
+                        r.known = None
+                chain.pop()
         cur = len(chain)
 
         # ---- events of this op
@@ -664,6 +682,9 @@ def collision_stats(case):
                     for x in reqs - gone:
                         watch.append((due, x, pos(x)))
             chain.pop()
+        elif kind == "rewind" and ok:
+            for _ in op[1]:
+                chain.pop()
         for cid_s, rec in ev.items():
             c = clients.get(int(cid_s))
             if c is None:
@@ -689,6 +710,84 @@ def collision_stats(case):
             watch = keep
     st["due_collisions"] = len(seen_due)
     return st
+
+
+def catchup_predicate(case):
+    """Catch-up histories: what every client has been told at the end, judged against the BACKEND's
+    final active chain (not against the blocks TxNotifier happened to be handed): an un-negated
+    Confirmed / un-reorged Spend names the block / spender of that chain, a tx with >= N
+    confirmations (a spent outpoint) on it has been announced, cached hints are not above the
+    confirmation / spend height.  Every rescan of these histories was answered truthfully."""
+    ops = case["ops"]
+    cur = ops[-1]["cur"]
+    chain = [(b[0], list(b[1])) for b in case["final"]][:cur]
+    fails = []
+    if len(case["final"]) != cur:
+        fails.append(("C14_conf_exact", "notifier ends at height %d, backend tip is %d"
+                      % (cur, len(case["final"])), len(ops) - 1))
+
+    def pos_tx(i):
+        for h, (bid, txs) in enumerate(chain, 1):
+            if i in txs:
+                return (h, bid)
+        return None
+
+    def pos_spend(j):
+        for h, (bid, txs) in enumerate(chain, 1):
+            for x in txs:
+                if SPENDS[x] == j:
+                    return (h, x)
+        return None
+
+    cl = {}
+    for o in ops:
+        op, ret, ev = o["op"], o["ret"], o.get("ev") or {}
+        ok = ret == "ok" or isinstance(ret, list)
+        if op[0] == "reg" and ok:
+            cl[op[2]] = {"side": "c", "x": op[1], "n": op[3], "st": None, "live": True}
+        elif op[0] == "sreg" and ok:
+            cl[op[2]] = {"side": "s", "x": op[1], "n": 1, "st": None, "live": True}
+        elif op[0] in ("cancel", "scancel") and op[2] in cl:
+            cl[op[2]]["live"] = False
+        for cid_s, rec in ev.items():
+            c = cl.get(int(cid_s))
+            if c is None:
+                continue
+            if rec.get("n") or rec.get("r"):
+                c["st"] = None
+            for h, b in rec.get("c", []) + rec.get("s", []):
+                c["st"] = (h, b)
+            if rec.get("d"):
+                c["live"] = False
+    k = len(ops) - 1
+    done = {(c["side"], c["x"]) for c in cl.values() if not c["live"]}
+    for cid, c in sorted(cl.items()):
+        if not c["live"]:
+            continue
+        if c["side"] == "c":
+            p = pos_tx(c["x"])
+            if c["st"] is not None and c["st"] != p:
+                fails.append(("C14_conf_exact", "after the catch-up client %d believes %s, active "
+                              "chain has tx %d at %s" % (cid, c["st"], c["x"], p), k))
+            elif p and p[0] + c["n"] - 1 <= cur and c["st"] != p:
+                fails.append(("C14_conf_exact", "after the catch-up client %d not told: tx %d at %s "
+                              "has %d >= %d confirmations" % (cid, c["x"], p, cur - p[0] + 1, c["n"]), k))
+        else:
+            p = pos_spend(c["x"])
+            if c["st"] != p:
+                fails.append(("C14_spend_exact", "after the catch-up client %d believes %s, active "
+                              "chain has outpoint %d spent at %s" % (cid, c["st"], c["x"], p), k))
+    for i, hnt in enumerate(ops[-1]["ch"]):
+        p = pos_tx(i)
+        if hnt is not None and p and hnt > p[0] and ("c", i) not in done:
+            fails.append(("C14_conf_hint_safe", "after the catch-up conf hint %d above confirmation "
+                          "height %d of tx %d" % (hnt, p[0], i), k))
+    for j, hnt in enumerate(ops[-1]["sh"]):
+        p = pos_spend(j)
+        if hnt is not None and p and hnt > p[0] and ("s", j) not in done:
+            fails.append(("C14_spend_hint_safe", "after the catch-up spend hint %d above spend "
+                          "height %d of outpoint %d" % (hnt, p[0], j), k))
+    return fails
 
 
 def partial_reorg_witness(case):
@@ -741,9 +840,12 @@ def run(ctx):
         "reorgSafetyLimit below the highest tip seen, at most one inclusion of a txid / one "
         "spend of an outpoint on the active chain"])
     env = {}
-    rc, trace, out = run_harness(ctx.uid(), "chainntnfs", ["chainntnfs/verif_txnotifier_test.go"],
+    rc, trace, out = run_harness(ctx.uid(), "chainntnfs", HARNESS,
                                  "^TestVerifTxNotifier$", env=env, timeout=1500)
-    rows = sorted(read_jsonl(trace), key=lambda c: c["ci"])
+    try:
+        rows = sorted(read_jsonl(trace), key=lambda c: c["ci"])
+    except ValueError:           # truncated trace: the test binary died
+        rows, rc = [], rc or 1
     for c in rows:                       # Go encodes empty slices as null
         c["ops"] = c.get("ops") or []
         c["pre"] = c.get("pre") or []
@@ -763,7 +865,10 @@ def run(ctx):
             taints[c["ci"]] = o["taints"]
 
     def pred(c, st=None):
-        return predicate(c, st, inherit=taints.get(c["ci"] - 2000000))
+        f = predicate(c, st, inherit=taints.get(c["ci"] - 2000000))
+        if c["kind"] == "catchup":
+            f = catchup_predicate(c) + f
+        return f
 
     for c in rows:
         f = pred(c, stats)
@@ -885,7 +990,22 @@ def run(ctx):
                 per[(o["op"][0], o["op"][1])] = per.get((o["op"][0], o["op"][1]), 0) + 1
         for v in per.values():
             clients_per_req[min(v, 5)] = clients_per_req.get(min(v, 5), 0) + 1
+    cu_depth, cu_lead, cu_events = {}, {}, {"rewinds_with_reorg_notice": 0, "rewinds": 0}
+    for c in rows:
+        if c["kind"] != "catchup":
+            continue
+        for o in c["ops"]:
+            if o["op"][0] == "rewind":
+                d, lead = len(o["op"][1]), o["op"][2] - o["op"][3]
+                cu_depth[d] = cu_depth.get(d, 0) + 1
+                cu_lead[lead] = cu_lead.get(lead, 0) + 1
+                cu_events["rewinds"] += 1
+                if any(r.get("n") or r.get("r") for r in (o.get("ev") or {}).values()):
+                    cu_events["rewinds_with_reorg_notice"] += 1
     ctx.cov.update({
+        "catchup_fork_depth_hist": cu_depth,
+        "catchup_notified_height_minus_best_hist": cu_lead,
+        "catchup_rewinds": cu_events,
         "shared_index_collisions_by_kind": coll,
         "cases_with_collision": coll_cases,
         "multi_request_clients_per_request_hist(5=5+)": clients_per_req,
@@ -902,7 +1022,16 @@ def run(ctx):
                 "HeightHintCache; evaluations = per-request projections checked against the "
                 "per-request model (5 per case) + for multi-request kinds the WHOLE history checked "
                 "against the multi-request model with the shared height indexes (2 per case: conf "
-                "side, spend side); non-trivial = more than 5 ops, distinct by full op list; "
+                "side, spend side); kind 'catchup' (enumerated: fork depth 0-3 x new-branch length x "
+                "which block of the new chain the notifier hears about x position of the watched tx "
+                "on the old / new branch): the backend-facing catch-up layer "
+                "chainntnfs.HandleMissedBlocks / GetCommonBlockAncestorHeight / RewindChain driven "
+                "through an in-memory ChainConn with all intermediate notifications dropped; the trace "
+                "records the CANONICAL in-order sequence (one block-step of DisconnectTips down to the "
+                "common ancestor, then ConnectTip+NotifyHeight up to the notified block) paired with "
+                "what the real code did, the model is fed that canonical sequence (MExec block steps) "
+                "and the final client state is judged against the backend's final active chain; "
+                "non-trivial = more than 5 ops, distinct by full op list; "
                 "every history is followed by a 'restart' case: fresh TxNotifier on the same hint "
                 "cache at the final tip, every request re-registered with hint = cached hint, "
                 "rescan served truthfully (client must be notified iff confirmed/spent)",
